@@ -994,7 +994,8 @@ def _is_logging(st: ast.stmt) -> bool:
     if isinstance(st, ast.Expr) and isinstance(st.value, ast.Call):
         t = norm(st.value.func)
         root = t.split('.')[0]
-        return bool(re.match(r'(?i)^_*(log|logger|logging|warnings)$', root)) or t.startswith('logging.getLogger(')
+        return bool(re.match(r'(?i)^_*(log|logger|logging|warnings)\w*$', root)) or t.startswith('logging.getLogger(') \
+            or bool(re.match(r'(?i)^_\w*log\w*$', root))
     return False
 
 
